@@ -1,6 +1,6 @@
 /-
   Driver/ExtCommute.lean — requests for the guards of C17 `commute_succeeds_replace` and
-  `commute_succeeds_around_*_partial` (PM/CommuteGuard.lean), and the whole rebase-and-apply square of the
+  `commute_succeeds_around` (PM/CommuteGuard.lean), and the whole rebase-and-apply square of the
   model for a pair of steps.
 -/
 import Lean.Data.Json
